@@ -251,6 +251,48 @@ func runC03(c *Ctx) {
 			}
 		}
 		if !ok {
+			// countdown: `for n := counter; n > 0; n-- { spawn }` — φ[counter, φ-1] tested against zero
+			for _, f := range factsAt(g.blk) {
+				bo, isBo := f.Cond.(*ssa.BinOp)
+				if !isBo || !f.Val {
+					continue
+				}
+				z, isZ := constInt(bo.Y)
+				if !isZ || z != 0 {
+					continue
+				}
+				if bo.Op != token.GTR {
+					b, isB := bo.X.Type().Underlying().(*types.Basic)
+					if bo.Op != token.NEQ || !isB || b.Info()&types.IsUnsigned == 0 {
+						continue
+					}
+				}
+				phi, isPhi := bo.X.(*ssa.Phi)
+				if !isPhi || len(phi.Edges) != 2 || loopHeaderOf(g.blk) != phi.Block() {
+					continue
+				}
+				fromCounter, stepDown := false, false
+				for _, e := range phi.Edges {
+					if isCellLoad(e) {
+						fromCounter = true
+					}
+					if sub, isSub := e.(*ssa.BinOp); isSub && sub.Op == token.SUB && sub.X == ssa.Value(phi) {
+						if one, isOne := constInt(sub.Y); isOne && one == 1 {
+							stepDown = true
+						}
+					}
+				}
+				if fromCounter && stepDown {
+					ok = true
+					for _, st := range storesAttack {
+						if phi.Block().Dominates(st.Block()) {
+							ok, why = false, "a store to the counter does not precede the spawn loop"
+						}
+					}
+				}
+			}
+		}
+		if !ok {
 			// `for range n` over an integer: do-while shape, body φ[0, φ+1] entered under 0 < n and repeated under φ+1 < n
 			if n := rangeIntBound(g.blk); n != nil && isCellLoad(n) {
 				ok = true
